@@ -1256,6 +1256,30 @@ VARIANTS += [
          edits=[dict(file='ipa-core/src/protocol/hybrid/oprf.rs', find='        replicated::{malicious, semi_honest::AdditiveShare as Replicated},\n    },\n    seq_join::{SeqJoin, seq_join},\n    utils::non_zero_prev_power_of_two,\n};\n\n', replace='        replicated::{malicious, semi_honest::AdditiveShare as Replicated},\n    },\n    seq_join::{SeqJoin, seq_join},\n    sharding::ShardIndex,\n    utils::non_zero_prev_power_of_two,\n};\n\n'), dict(file='ipa-core/src/protocol/hybrid/oprf.rs', find='        return reshard_try_stream(\n            ctx.narrow(&HybridStep::ReshardByPrf),\n            stream::iter(Vec::<Result<PrfHybridReport<BK, V>, Error>>::new()),\n            |ctx, _, report| report.match_key % ctx.shard_count(),\n        )\n        .await;\n    }\n', replace='        return reshard_try_stream(\n            ctx.narrow(&HybridStep::ReshardByPrf),\n            stream::iter(Vec::<Result<PrfHybridReport<BK, V>, Error>>::new()),\n            shard_by_prf,\n        )\n        .await;\n    }\n'), dict(file='ipa-core/src/protocol/hybrid/oprf.rs', find='    reshard_try_stream(\n        ctx.narrow(&HybridStep::ReshardByPrf),\n        report_stream,\n        |ctx, _, report| report.match_key % ctx.shard_count(),\n    )\n    .await\n}\n\n/// generates PRF key k as secret sharing over Fp25519\npub fn gen_prf_key<C, const N: usize>(ctx: &C) -> Replicated<Fp25519, N>\nwhere\n', replace='    reshard_try_stream(\n        ctx.narrow(&HybridStep::ReshardByPrf),\n        report_stream,\n        shard_by_prf,\n    )\n    .await\n}\n\n/// Selects the destination shard for a report based on its OPRF value. Reports with the\n/// same value are assigned to the same shard.\nfn shard_by_prf<C, BK, V>(ctx: C, _: RecordId, report: &PrfHybridReport<BK, V>) -> ShardIndex\nwhere\n    C: ShardedContext,\n    BK: BooleanArray,\n    V: BooleanArray,\n{\n    report.match_key % ctx.shard_count()\n}\n\n/// generates PRF key k as secret sharing over Fp25519\npub fn gen_prf_key<C, const N: usize>(ctx: &C) -> Replicated<Fp25519, N>\nwhere\n')]),
 ]
 
+# round B2 (C13, C15, C18, C10)
+VARIANTS += [
+    dict(prop="C18", name="set-state-get-then-insert", benign=True,
+         edits=[dict(file='ipa-core/src/query/state.rs', find='use std::{\n    collections::{HashMap, hash_map::Entry},\n    fmt::{Debug, Display, Formatter},\n    future::Future,\n    task::Poll,\n', replace='use std::{\n    collections::HashMap,\n    fmt::{Debug, Display, Formatter},\n    future::Future,\n    task::Poll,\n'), dict(file='ipa-core/src/query/state.rs', find="impl QueryHandle<'_> {\n    pub fn set_state(&self, new_state: QueryState) -> Result<(), StateError> {\n        let mut inner = self.queries.inner.lock().unwrap();\n        let entry = inner.entry(self.query_id);\n        match entry {\n            Entry::Occupied(mut entry) => {\n                entry.insert(QueryState::transition(entry.get(), new_state)?);\n            }\n            Entry::Vacant(entry) => {\n                entry.insert(QueryState::transition(&QueryState::Empty, new_state)?);\n            }\n        }\n\n        Ok(())\n    }\n", replace="impl QueryHandle<'_> {\n    pub fn set_state(&self, new_state: QueryState) -> Result<(), StateError> {\n        let mut inner = self.queries.inner.lock().unwrap();\n        let next_state = match inner.get(&self.query_id) {\n            Some(cur_state) => QueryState::transition(cur_state, new_state)?,\n            None => QueryState::transition(&QueryState::Empty, new_state)?,\n        };\n        inner.insert(self.query_id, next_state);\n\n        Ok(())\n    }\n")]),
+    dict(prop="C18", name="get-status-nested-match", benign=True,
+         edits=[dict(file='ipa-core/src/query/processor.rs', find='    /// If the query was completed it updates the state to reflect that.\n    fn get_status(&self, query_id: QueryId) -> Option<QueryStatus> {\n        let mut queries = self.queries.inner.lock().unwrap();\n        let mut state = queries.remove(&query_id)?;\n\n        if let QueryState::Running(ref mut running) = state {\n            if let Some(result) = running.try_complete() {\n                state = QueryState::Completed(result);\n            }\n        }\n\n        let status = QueryStatus::from(&state);\n        queries.insert(query_id, state);\n', replace='    /// If the query was completed it updates the state to reflect that.\n    fn get_status(&self, query_id: QueryId) -> Option<QueryStatus> {\n        let mut queries = self.queries.inner.lock().unwrap();\n        let state = match queries.remove(&query_id)? {\n            QueryState::Running(mut running) => match running.try_complete() {\n                Some(result) => QueryState::Completed(result),\n                None => QueryState::Running(running),\n            },\n            other => other,\n        };\n\n        let status = QueryStatus::from(&state);\n        queries.insert(query_id, state);\n')]),
+    dict(prop="C18", name="min-status-by-rank", benign=True,
+         edits=[dict(file='ipa-core/src/query/state.rs', find='/// that describes the helper.\n#[must_use]\npub fn min_status(a: QueryStatus, b: QueryStatus) -> QueryStatus {\n    match (a, b) {\n        (QueryStatus::Preparing, _) | (_, QueryStatus::Preparing) => QueryStatus::Preparing,\n        (QueryStatus::AwaitingInputs, _) | (_, QueryStatus::AwaitingInputs) => {\n            QueryStatus::AwaitingInputs\n        }\n        (QueryStatus::Running, _) | (_, QueryStatus::Running) => QueryStatus::Running,\n        (QueryStatus::AwaitingCompletion, _) | (_, QueryStatus::AwaitingCompletion) => {\n            QueryStatus::AwaitingCompletion\n        }\n        (QueryStatus::Completed, _) => QueryStatus::Completed,\n    }\n}\n\n/// TODO: a macro would be very useful here to keep it in sync with `QueryStatus`\n', replace='/// that describes the helper.\n#[must_use]\npub fn min_status(a: QueryStatus, b: QueryStatus) -> QueryStatus {\n    /// Position of a status in the query lifecycle, `Preparing` being the least advanced.\n    fn progress(status: QueryStatus) -> u8 {\n        match status {\n            QueryStatus::Preparing => 0,\n            QueryStatus::AwaitingInputs => 1,\n            QueryStatus::Running => 2,\n            QueryStatus::AwaitingCompletion => 3,\n            QueryStatus::Completed => 4,\n        }\n    }\n\n    if progress(a) <= progress(b) { a } else { b }\n}\n\n/// TODO: a macro would be very useful here to keep it in sync with `QueryStatus`\n')]),
+    dict(prop="C15", name="mt-refill-loop-with-break", cfg="M", benign=True,
+         edits=[dict(file='ipa-core/src/seq_join/multi_thread.rs', find='        let mut this = self.project();\n\n        // Draw more values from the input, up to the capacity.\n        while this.spawner.remaining() < *this.capacity {\n            if let Poll::Ready(Some(f)) = this.source.as_mut().poll_next(cx) {\n                // Making futures cancellable is critical to avoid hangs.\n                // if one of them panics, unwinding causes spawner to drop and, in turn,\n', replace='        let mut this = self.project();\n\n        // Draw more values from the input, up to the capacity.\n        loop {\n            let in_flight = this.spawner.remaining();\n            if in_flight >= *this.capacity {\n                break;\n            }\n            if let Poll::Ready(Some(f)) = this.source.as_mut().poll_next(cx) {\n                // Making futures cancellable is critical to avoid hangs.\n                // if one of them panics, unwinding causes spawner to drop and, in turn,\n'), dict(file='ipa-core/src/seq_join/multi_thread.rs', find='                        panic!("SequentialFutures: spawned task {task_index} cancelled")\n                    });\n\n                periodic_memory_report(*this.spawned);\n                *this.spawned += 1;\n            } else {\n                break;\n            }\n', replace='                        panic!("SequentialFutures: spawned task {task_index} cancelled")\n                    });\n\n                periodic_memory_report(task_index);\n                *this.spawned = task_index + 1;\n            } else {\n                break;\n            }\n')]),
+    dict(prop="C15", name="validated-join-renamed-bindings", benign=True,
+         edits=[dict(file='ipa-core/src/protocol/context/dzkp_validator.rs', find="        O: Send + Sync + 'static,\n    {\n        let ctx = self.context();\n        seq_join(\n            ctx.active_work(),\n            source.enumerate().map(move |(index, fut)| {\n                let ctx = ctx.clone();\n                fut.then(move |res| async move {\n                    let item = res?;\n                    ctx.validate_record(RecordId::from(index)).await?;\n                    Ok(item)\n                })\n            }),\n        )\n        .chain(stream::unfold(Some(self), move |mut validator| {\n            // This keeps the validator alive until the stream has finished.\n            drop(validator.take());\n            ready(None)\n", replace="        O: Send + Sync + 'static,\n    {\n        let ctx = self.context();\n        let window = ctx.active_work();\n        // Each task reports its own record for validation once its result is available.\n        let validated = source.enumerate().map(move |(record_index, task)| {\n            let record_ctx = ctx.clone();\n            task.then(move |res| async move {\n                let item = res?;\n                let record_id = RecordId::from(record_index);\n                record_ctx.validate_record(record_id).await?;\n                Ok(item)\n            })\n        });\n        seq_join(window, validated).chain(stream::unfold(Some(self), move |mut validator| {\n            // This keeps the validator alive until the stream has finished.\n            drop(validator.take());\n            ready(None)\n")]),
+    dict(prop="C13", name="spare-read-via-get", benign=True,
+         edits=[dict(file='ipa-core/src/helpers/buffers/unordered_receiver.rs', find="    /// Read a message from the buffer.  Returns `None` if there isn't enough data.\n    fn read<M: Message>(&mut self) -> Option<Result<M, M::DeserializationError>> {\n        let end = self.offset + M::Size::USIZE;\n        if end <= self.buf.len() {\n            let m = M::deserialize(GenericArray::from_slice(&self.buf[self.offset..end]));\n            self.offset = end;\n            Some(m)\n        } else {\n            None\n        }\n    }\n\n    /// Replace the stored value with the given slice.\n    fn replace(&mut self, v: &[u8]) {\n        self.offset = 0;\n        self.buf.truncate(0);\n        self.buf.extend_from_slice(v);\n    }\n\n    /// Extend the buffer with new data.\n", replace="    /// Read a message from the buffer.  Returns `None` if there isn't enough data.\n    fn read<M: Message>(&mut self) -> Option<Result<M, M::DeserializationError>> {\n        let end = self.offset + M::Size::USIZE;\n        // `offset <= end`, so this is `None` exactly when `end` is past the buffered data.\n        let bytes = self.buf.get(self.offset..end)?;\n        let m = M::deserialize(GenericArray::from_slice(bytes));\n        self.offset = end;\n        Some(m)\n    }\n\n    /// Replace the stored value with the given slice.\n    fn replace(&mut self, v: &[u8]) {\n        self.buf.clear();\n        self.buf.extend_from_slice(v);\n        self.offset = 0;\n    }\n\n    /// Extend the buffer with new data.\n")]),
+    dict(prop="C13", name="rendezvous-occupied-insert", benign=True,
+         edits=[dict(file='ipa-core/src/helpers/transport/receive.rs', find='        loop {\n            match self.as_mut().project() {\n                ReceiveRecordsInnerProj::Pending(key, streams) => {\n                    if let Some(stream) = streams.add_waker(key, cx.waker()) {\n                        self.set(Self::Ready(stream));\n                    } else {\n                        return Poll::Pending;\n                    }\n                }\n                ReceiveRecordsInnerProj::Ready(stream) => return stream.poll_next(cx),\n            }\n', replace='        loop {\n            match self.as_mut().project() {\n                ReceiveRecordsInnerProj::Pending(key, streams) => {\n                    let Some(stream) = streams.add_waker(key, cx.waker()) else {\n                        // the collection keeps our waker and notifies us when the stream arrives\n                        return Poll::Pending;\n                    };\n                    self.set(Self::Ready(stream));\n                }\n                ReceiveRecordsInnerProj::Ready(stream) => return stream.poll_next(cx),\n            }\n'), dict(file='ipa-core/src/helpers/transport/stream/collection.rs', find='        let mut streams = self.inner.lock().unwrap();\n        match streams.entry(key) {\n            Entry::Occupied(mut entry) => match entry.get_mut() {\n                rs @ StreamState::Waiting(_) => {\n                    let StreamState::Waiting(waker) =\n                        std::mem::replace(rs, StreamState::Ready(stream))\n                    else {\n                        unreachable!()\n                    };\n', replace='        let mut streams = self.inner.lock().unwrap();\n        match streams.entry(key) {\n            Entry::Occupied(mut entry) => match entry.get_mut() {\n                StreamState::Waiting(_) => {\n                    // `insert` on an occupied entry hands back the value it replaces.\n                    let StreamState::Waiting(waker) = entry.insert(StreamState::Ready(stream))\n                    else {\n                        unreachable!()\n                    };\n')]),
+    dict(prop="C10", name="registry-key-via-get", benign=True,
+         edits=[dict(file='ipa-core/src/hpke/registry.rs', find='    }\n\n    fn key(&self, key_id: KeyIdentifier) -> Option<&K> {\n        match key_id as usize {\n            key_id if key_id < self.keys.len() => Some(&self.keys[key_id]),\n            _ => None,\n        }\n    }\n}\n\n', replace='    }\n\n    fn key(&self, key_id: KeyIdentifier) -> Option<&K> {\n        // `get` performs the same bounds check and yields `None` for unknown identifiers.\n        self.keys.get(usize::from(key_id))\n    }\n}\n\n')]),
+    dict(prop="C17", name="eof-arms-merged", benign=True,
+         edits=[dict(file='ipa-core/src/helpers/transport/stream/input.rs', find='            };\n\n            match this.buffer.extend(polled_item) {\n                ExtendResult::Finished if this.pending_len.is_some() => {\n                    return Poll::Ready(Some(Err(io::Error::new(\n                        io::ErrorKind::WriteZero,\n                        format!(\n', replace='            };\n\n            match this.buffer.extend(polled_item) {\n                ExtendResult::Finished => {\n                    // a length prefix without its record means the input was truncated\n                    let Some(_missing_len) = *this.pending_len else {\n                        return Poll::Ready(None);\n                    };\n                    return Poll::Ready(Some(Err(io::Error::new(\n                        io::ErrorKind::WriteZero,\n                        format!(\n'), dict(file='ipa-core/src/helpers/transport/stream/input.rs', find='                        ),\n                    ))));\n                }\n                ExtendResult::Finished => return Poll::Ready(None),\n                ExtendResult::Error(err) => return Poll::Ready(Some(Err(err))),\n                ExtendResult::Ok if available_len == 0 => {\n                    available_len = this.buffer.contiguous_len();\n                    items.reserve(1 + available_len / ESTIMATED_AVERAGE_REPORT_SIZE);\n                }\n                ExtendResult::Ok => (),\n            }\n        }\n    }\n', replace='                        ),\n                    ))));\n                }\n                ExtendResult::Error(err) => return Poll::Ready(Some(Err(err))),\n                ExtendResult::Ok => {\n                    if available_len == 0 {\n                        available_len = this.buffer.contiguous_len();\n                        items.reserve(1 + available_len / ESTIMATED_AVERAGE_REPORT_SIZE);\n                    }\n                }\n            }\n        }\n    }\n')]),
+    dict(prop="C10", name="missing-key-let-else", benign=True,
+         edits=[dict(file='ipa-core/src/report/hybrid.rs', find='\n        let mut ct_mk: GenericArray<u8, CTMKLength> =\n            *GenericArray::from_slice(self.mk_ciphertext());\n        let sk = key_registry\n            .private_key(self.key_id())\n            .ok_or(CryptError::NoSuchKey(self.key_id()))?;\n        let info =\n            HybridImpressionInfo::from_bytes(&self.data[Self::INFO_OFFSET..]).map_err(|e| {\n                InvalidHybridReportError::DeserializationError("HybridImpressionInfo", e.into())\n', replace='\n        let mut ct_mk: GenericArray<u8, CTMKLength> =\n            *GenericArray::from_slice(self.mk_ciphertext());\n        let key_id = self.key_id();\n        let Some(sk) = key_registry.private_key(key_id) else {\n            return Err(CryptError::NoSuchKey(key_id).into());\n        };\n        let info =\n            HybridImpressionInfo::from_bytes(&self.data[Self::INFO_OFFSET..]).map_err(|e| {\n                InvalidHybridReportError::DeserializationError("HybridImpressionInfo", e.into())\n'), dict(file='ipa-core/src/report/hybrid.rs', find='\n        let mut ct_mk: GenericArray<u8, CTMKLength> =\n            *GenericArray::from_slice(self.mk_ciphertext());\n        let sk = key_registry\n            .private_key(self.key_id())\n            .ok_or(CryptError::NoSuchKey(self.key_id()))?;\n        let info =\n            HybridConversionInfo::from_bytes(&self.data[Self::INFO_OFFSET..]).map_err(|e| {\n                InvalidHybridReportError::DeserializationError("HybridConversionInfo", e.into())\n', replace='\n        let mut ct_mk: GenericArray<u8, CTMKLength> =\n            *GenericArray::from_slice(self.mk_ciphertext());\n        let key_id = self.key_id();\n        let Some(sk) = key_registry.private_key(key_id) else {\n            return Err(CryptError::NoSuchKey(key_id).into());\n        };\n        let info =\n            HybridConversionInfo::from_bytes(&self.data[Self::INFO_OFFSET..]).map_err(|e| {\n                InvalidHybridReportError::DeserializationError("HybridConversionInfo", e.into())\n')]),
+]
+
 # rules shared between properties: the same edit must be reported under the other property too
 VARIANTS += [dict(v, prop="C05", name=v["name"] + "@C05") for v in VARIANTS
              if v["name"] in ("h1-shuffle-empty-shard-leaves", "sharded-shuffle-empty-shard-leaves", "reshard-closes-channels-on-input-error", "reshard-closes-before-matching-none")]
